@@ -65,7 +65,7 @@ class Scoreboard:
 
         diff_result = date - self.startDate
         diff: float = diff_result.total_seconds()
-        idx = int(diff / self.resolution)
+        idx = math.floor(diff / self.resolution)
 
         if forceIntoProject:
             if idx < 0:
